@@ -2,6 +2,7 @@ CONSTANTS Big = FALSE CP = 43 CB = 7 CN = 31 CGx = 2 CGy = 12
 WifKeys = {}
 WifSuffixLens = {}
 LongSuffixLen = 0
+LongEvery = 1
 B64Bytes = {}
 B64Chars = {}
 B64MaxChars = 0
@@ -12,8 +13,7 @@ INIT Init
 NEXT Next
 INVARIANT Sec1AcceptExact
 INVARIANT Sec1RoundTrip
-INVARIANT WifRefusesInvalidKey
-INVARIANT WifRoundTrip
+INVARIANT WifExact
 INVARIANT WifAcceptIsImage
 INVARIANT PemPrivExact
 INVARIANT PemPubExact
